@@ -215,7 +215,7 @@ def returns_{pyname}(s0: int, s1: int, n: int, a: int, s: str, t: str) -> bool:
     return rt is None or match_sequence_type(r, rt, P31)
 '''
 for _i, _f in enumerate(sorted(FUNCS)):
-    define(_SRCF.format(fname=_f, pyname=_f.replace('-', '_'), tier='quick' if _i % 2 == 0 else 'thorough'), globals())
+    define(_SRCF.format(fname=_f, pyname=_f.replace('-', '_'), tier='quick'), globals())
 
 
 # --- added after round-2 seeded changes: map(K, V) / array(T) / function tests, also with nested value types -----------------------
@@ -414,4 +414,23 @@ def treat_as_structured_types(k: int, k2: int) -> bool:
         except ElementPathError as e:
             if err_code(e) != 'XPDY0050':
                 return False
+    return True
+
+
+@ob(budget=120, bound='every one of the 23 built-in function templates called with the EMPTY sequence for its sequence argument (integer and string '
+                      'arguments symbolic): the result matches the registered return type',
+    funcs=['elementpath/xpath1/xpath1_parser.py:function registration', ST + ':match_sequence_type'])
+def returns_on_empty_sequence(a: int, s: str, t: str) -> bool:
+    """
+    pre: len(s) <= 1 and len(t) <= 1
+    post: _
+    """
+    for f in sorted(FUNCS):
+        rt = _return_type(f)
+        try:
+            r = TOK_F[f].evaluate(XPathContext(item=1, variables=dict(S=[], a=a, s=s, t=t)))
+        except ElementPathError:
+            continue
+        if rt is not None and not match_sequence_type(r, rt, P31):
+            return False
     return True
